@@ -212,9 +212,12 @@ theorem store_ok_iff (name : String) (v : V) : ∀ (segs : List String) (outputs
         cases w with
         | atom t i => cases rest <;> simp
         | dict fr sub =>
-          simp only
-          rw [← store_ok_iff name v rest sub]
-          cases store sub rest name v <;> simp
+          cases fr with
+          | true => cases rest <;> simp
+          | false =>
+            simp only
+            rw [← store_ok_iff name v rest sub]
+            cases store sub rest name v <;> simp
 
 theorem getPath_none : ∀ (q : List String), getPath none q = none
   | [] => rfl
@@ -246,11 +249,14 @@ theorem store_getPath_self (name : String) (v : V) : ∀ (segs : List String) (o
         cases w with
         | atom t i => cases rest <;> simp at h
         | dict fr sub =>
+          cases fr with
+          | true => cases rest <;> simp at h
+          | false =>
           cases hs : store sub rest name v with
           | error e => simp [hs] at h
           | ok sub' =>
             simp only [hs, Except.ok.injEq] at h; subst h
-            rw [lookup_setKey_self]; exact store_getPath_self name v rest sub sub' fr hs
+            rw [lookup_setKey_self]; exact store_getPath_self name v rest sub sub' false hs
 
 /-- a successful `store` changes nothing at any path that is neither above nor below the place it writes -/
 theorem store_getPath_other (name : String) (v : V) : ∀ (segs : List String) (outputs o : Items) (f : Bool) (q : List String),
@@ -284,11 +290,14 @@ theorem store_getPath_other (name : String) (v : V) : ∀ (segs : List String) (
           cases w with
           | atom t i => cases rest <;> simp at h
           | dict fr sub =>
+            cases fr with
+            | true => cases rest <;> simp at h
+            | false =>
             cases hs : store sub rest name v with
             | error e => simp [hs] at h
             | ok sub' =>
               simp only [hs, Except.ok.injEq] at h; subst h
-              rw [lookup_setKey_self]; exact store_getPath_other name v rest sub sub' fr q' hs h1' h2'
+              rw [lookup_setKey_self]; exact store_getPath_other name v rest sub sub' false q' hs h1' h2'
       · have : lookup k o = lookup k outputs := by
           cases hl : lookup s outputs with
           | none =>
@@ -301,6 +310,9 @@ theorem store_getPath_other (name : String) (v : V) : ∀ (segs : List String) (
             cases w with
             | atom t i => cases rest <;> simp at h
             | dict fr sub =>
+              cases fr with
+              | true => cases rest <;> simp at h
+              | false =>
               cases hs : store sub rest name v with
               | error e => simp [hs] at h
               | ok sub' => simp only [hs, Except.ok.injEq] at h; subst h; exact lookup_setKey_ne hk _ _
@@ -341,6 +353,9 @@ theorem store_error_class (name : String) (v : V) : ∀ (segs : List String) (ou
         cases w with
         | atom t i => cases rest <;> simp at h <;> simp [← h]
         | dict fr sub =>
+          cases fr with
+          | true => cases rest <;> simp at h <;> simp [← h]
+          | false =>
           cases hs : store sub rest name v with
           | ok sub' => simp [hs] at h
           | error e' => simp only [hs, Except.error.injEq] at h; subst h; exact store_error_class name v rest sub e' hs
